@@ -24,6 +24,14 @@ Definition cadds (m : cmap) (cs : coins) : cmap := fold_left (fun a c => cadd a 
 Definition csubs (m : cmap) (cs : coins) : cmap := fold_left (fun a c => cadd a (fst c) (- snd c)) cs m.
 Definition cplus (m n : cmap) : cmap := fun d => m d + n d.
 Definition cminus (m n : cmap) : cmap := fun d => m d - n d.
+(* total amount of denom d in a coin list (message lists may repeat a denom) *)
+Fixpoint csum (cs : coins) (d : Z) : Z :=
+  match cs with [] => 0 | c :: r => (if d =? fst c then snd c else 0) + csum r d end.
+(* sdk.Coins.IsValid for the lists the harness sends (sorted by denom string): positive amounts, no denom twice *)
+Fixpoint coins_valid (cs : coins) : bool :=
+  match cs with [] => true | c :: r => (0 <? snd c) && negb (existsb (fun e => fst e =? fst c) r) && coins_valid r end.
+Fixpoint has_dup (cs : coins) : bool :=
+  match cs with [] => false | c :: r => existsb (fun e => fst e =? fst c) r || has_dup r end.
 Definition all_gte (m : cmap) (cs : coins) : bool := forallb (fun c => snd c <=? m (fst c)) cs.
 Definition aset (m : amap) (a : Z) (v : cmap) : amap := fun b => if b =? a then v else m b.
 Definition aadd (m : amap) (a d x : Z) : amap := aset m a (cadd (m a) d x).
@@ -65,8 +73,11 @@ Record variant := mkVariant {
   v_burn_registry : bool;  (* Undelegate burns through the tokens keeper (TokenInfo.Supply follows) *)
   v_slash_byref : bool;    (* app.go hands the slashing keeper the application's multistaking keeper by reference (the
                               governance slash path works); by value: a copy without distributor keeper => it panics *)
-  v_slash_guard : bool     (* SlashStakingPool skips the burn when no default-denom stake is slashed *)
+  v_slash_guard : bool;    (* SlashStakingPool skips the burn when no default-denom stake is slashed *)
+  v_compound_safe : bool   (* IncreasePoolRewards runs each auto-compounding on a cache context and continues on error *)
 }.
+(* the variant of the tree at the time the check was last aligned (fallback when the translator rejects a tree) *)
+Definition last_known_variant : variant := mkVariant true 1 true true 1 false true true true.
 Definition end_deletes (rule h snap now : Z) : bool :=
   if rule =? 0 then now <? h + snap else if rule =? 1 then h + snap <=? now else false.
 
@@ -153,6 +164,7 @@ Fixpoint check_tok (c : cfg) (amts : coins) : outcome unit :=
 (* keeper.Delegate (validator active, pool exists, delegator count below MaxDelegators) *)
 Definition delegate (c : cfg) (who : Z) (amts : coins) (s : st) : outcome st :=
   if 0 <? slashed s then Err "slashed pool" else
+  if negb (coins_valid amts) then Err "invalid coins" else
   if negb (all_gte (nbal s who) amts) then Err "insufficient funds" else
   do _ <- check_tok c amts;
   let pc := pool_coins (slashed s) amts in
@@ -177,9 +189,12 @@ Fixpoint redeem_coins (v : variant) (s : st) (amts : coins) : outcome coins :=
 Definition undelegate (v : variant) (c : cfg) (who : Z) (amts : coins) (s : st) : outcome st :=
   do pc <- redeem_coins v s amts;
   if existsb (fun c => snd c <? 0) pc then Panic "negative coin amount" else
-  if negb (all_gte (sbal s who) pc) then Err "insufficient shares" else
+  (* the share coins are merged per denom before they are sent and burnt; the stake is compared coin by coin
+     (IsAllGTE) and then subtracted as a whole (Coins.Sub panics below zero) *)
+  if existsb (fun d => sbal s who d <? csum pc d) (c_dens c) then Err "insufficient shares" else
   if negb (all_gte (stake s) amts) then Err "insufficient total staking tokens" else
-  if negb (all_gte (shares s) pc) then Panic "negative coin amount" else
+  if has_dup amts then Panic "duplicate denomination" else     (* Coins.Sub(msg.Amounts...) builds NewCoins of its argument *)
+  if existsb (fun d => (stake s d <? csum amts d) || (shares s d <? csum pc d)) (c_dens c) then Panic "negative coin amount" else
   let sb := asubs (sbal s) who pc in
   let keeps := v_prefix_ok v && existsb (fun d => 0 <? sb who d) (c_dens c) in
   Ok (mkSt (time s) (height s) (slashed s) (csubs (stake s) amts) (csubs (shares s) pc) (csubs (ssup s) pc)
@@ -205,6 +220,7 @@ Definition claim (v : variant) (who id : Z) (s : st) : outcome st :=
   | Some u =>
       if time s <? u_expiry u then Err "not enough time passed" else
       if v_owner_check v && negb (u_owner u =? who) then Err "not the undelegation owner" else
+      if negb (coins_valid (u_amt u)) then Err "invalid coins" else
       if negb (all_gte (modb s) (u_amt u)) then Err "insufficient funds" else
       Ok (pay_undel s who u)
   end.
@@ -215,6 +231,7 @@ Fixpoint claim_matured_loop (who : Z) (l : list undel) (s : st) : outcome st :=
   | [] => Ok s
   | u :: r =>
       if negb (u_owner u =? who) || (time s <? u_expiry u) then claim_matured_loop who r s else
+      if negb (coins_valid (u_amt u)) then Err "invalid coins" else
       if negb (all_gte (modb s) (u_amt u)) then Err "insufficient funds" else
       claim_matured_loop who r (pay_undel s who u)
   end.
@@ -261,6 +278,27 @@ Definition register (c : cfg) (who : Z) (s : st) : outcome st :=
   if zmem who (dels s) then Ok s else
   do b <- register_scan c s who (c_dens c);
   Ok (if b then set_dels s (zinsert who (dels s)) else s).
+
+(* x/recovery MsgRotateRecoveryAddress of a delegator account [who] to the fresh address [to] (recovery secret
+   registered, [to] never used): the fee, then all coins, the compound info, the delegator registration and the
+   reward record move; undelegation records keep their owner *)
+Definition recovery_fee : Z := 1000000000.
+Definition rotate (who to payer : Z) (s : st) : outcome st :=
+  if nbal s payer 0 <? recovery_fee then Err "insufficient funds" else
+  let nb := aadd (nbal s) payer 0 (- recovery_fee) in
+  let nb' : amap := fun a => if a =? to then cplus (nb to) (nb who) else if a =? who then czero else nb a in
+  let sb' : amap := fun a => if a =? to then cplus (sbal s to) (sbal s who) else if a =? who then czero else sbal s a in
+  let rw' : amap := fun a => if a =? to then rew s who else if a =? who then czero else rew s a in
+  let cp' := fun a => if a =? to then comp s who else if a =? who then (false, [], 0) else comp s a in
+  let ds' := if zmem who (dels s) then zinsert to (zremove who (dels s)) else dels s in
+  Ok (mkSt (time s) (height s) (slashed s) (stake s) (shares s) (ssup s) (modb s) (fee s) (treas s) nb' sb' rw'
+           (undels s) (last s) ds' cp' (votes s) (prev s) (tsup s)).
+(* the same message for the pool validator's own account: in the observation the account id of "the pool
+   validator" follows the rotation (all its coins, the pool record, the staking validator move with it), so only
+   the fee is visible *)
+Definition rotate_validator (payer : Z) (s : st) : outcome st :=
+  if nbal s payer 0 <? recovery_fee then Err "insufficient funds" else
+  Ok (set_nbal s (aadd (nbal s) payer 0 (- recovery_fee))).
 
 Definition set_compound (who : Z) (all : bool) (ds : list Z) (s : st) : outcome st :=
   Ok (set_comp s (fun a => if a =? who then (all, ds, 0) else comp s a)).
@@ -310,23 +348,33 @@ Definition autocompound_one (c : cfg) (a : Z) (s : st) : outcome st :=
   match auto with
   | [] => Ok s
   | _ =>
-      if negb (all_gte (fee s) auto) then Panic "insufficient funds" else
+      if negb (all_gte (fee s) auto) then Err "insufficient funds" else
       let s := mkSt (time s) (height s) (slashed s) (stake s) (shares s) (ssup s) (modb s) (csubs (fee s) auto) (treas s)
                     (aadds (nbal s) a auto) (sbal s) (rew s) (undels s) (last s) (dels s) (comp s) (votes s) (prev s) (tsup s) in
       match delegate c a auto s with
       | Ok s => Ok (set_comp s (fun b => if b =? a then (all, cds, height s) else comp s b))
-      | Err e => Panic e
+      | Err e => Err e
       | Panic e => Panic e
       end
   end.
-Fixpoint autocompound (c : cfg) (l : list Z) (s : st) : outcome st :=
-  match l with [] => Ok s | a :: r => do s' <- autocompound_one c a s; autocompound c r s' end.
+(* a refused compounding (Err: fee collector cannot cover, Delegate refuses) used to panic inside the begin
+   blocker; since a2421a4 it runs on a cache context: the branch is discarded, the rewards stay credited *)
+Fixpoint autocompound (v : variant) (c : cfg) (l : list Z) (s : st) : outcome st :=
+  match l with
+  | [] => Ok s
+  | a :: r =>
+      match autocompound_one c a s with
+      | Ok s' => autocompound v c r s'
+      | Err e => if v_compound_safe v then autocompound v c r s else Panic e
+      | Panic e => Panic e
+      end
+  end.
 
 (* IncreasePoolRewards *)
-Definition increase_pool_rewards (c : cfg) (rw : cmap) (s : st) : outcome st :=
+Definition increase_pool_rewards (v : variant) (c : cfg) (rw : cmap) (s : st) : outcome st :=
   let s := set_dels s (filter (keeps_delegator c s) (dels s)) in
   let s := set_rew s (credit_all c s rw) in
-  autocompound c (dels s) s.
+  autocompound v c (dels s) s.
 
 Definition is_validator (v : Z) : bool := (v =? 0) || (v =? 1).
 Definition has_pool (v : Z) : bool := v =? 0.
@@ -354,7 +402,7 @@ Definition pay_validator (c : cfg) (v : Z) (vr : cmap) (s : st) : outcome st :=
            (undels s) (last s) (dels s) (comp s) (votes s) (prev s) (tsup s)).
 
 (* AllocateTokens (InflationPossible = true; the minted inflation [infl] is an input) *)
-Definition allocate (c : cfg) (infl : Z) (s : st) : outcome st :=
+Definition allocate (v : variant) (c : cfg) (infl : Z) (s : st) : outcome st :=
   if c_snap c =? 0 then Panic "division by zero" else
   let power := count_votes (prev s) (votes s) in
   let vr0 : cmap := val_fee_reward c s power in
@@ -367,7 +415,7 @@ Definition allocate (c : cfg) (infl : Z) (s : st) : outcome st :=
                 if (ic <? 0) || (ip <? 0) then Panic "negative coin amount" else
                 let vr := cadd vr0 0 ic in
                 let pr := cadd pr0 0 ip in
-                do s' <- (if cmap_is_zero (c_dens c) pr then Ok s1 else increase_pool_rewards c pr s1);
+                do s' <- (if cmap_is_zero (c_dens c) pr then Ok s1 else increase_pool_rewards v c pr s1);
                 pay_validator c (prev s) vr s'
               else pay_validator c (prev s) vr0 s1
             else Ok s1);
@@ -382,7 +430,7 @@ Definition add_votes (commit : list Z) (h : Z) (vs : list (Z * Z)) : list (Z * Z
 Definition begin_block (v : variant) (c : cfg) (dt : Z) (commit : list (Z * bool)) (proposer : Z) (possible : bool) (infl : Z) (s : st)
   : outcome st :=
   let s0 := set_clock s (time s + dt) (height s + 1) in
-  do s1 <- (if (1 <? height s0) && possible then allocate c infl s0 else Ok s0);
+  do s1 <- (if (1 <? height s0) && possible then allocate v c infl s0 else Ok s0);
   let vs := add_votes (recorded v commit) (height s0) (votes s1) in
   let vs := filter (fun p => negb (snd p + c_snap c <=? height s0)) vs in
   Ok (set_votes s1 vs proposer).
@@ -407,6 +455,10 @@ Inductive op : Type :=
 | OAdvance (dt : Z)                                     (* block time passes *)
 | OSetVotes (vs : list (Z * Z))                         (* keeper-level SetValidatorVote (allocation tests) *)
 | OAllocate (possible : bool) (infl : Z)                                  (* keeper-level AllocateTokens *)
+| ORotate (who to payer : Z)                             (* recovery address rotation of a delegator *)
+| ORotateVal (payer : Z)                                (* recovery address rotation of the pool validator's account *)
+| OExternal (tag : Z)                                   (* an action of another module that is outside the model (the
+                                                           spec checker judges its observation; the model takes it as given) *)
 | OBegin (dt : Z) (commit : list (Z * bool)) (proposer : Z) (possible : bool) (infl : Z)
 | OEnd.
 
@@ -427,7 +479,10 @@ Definition step (v : variant) (c : cfg) (o : op) (s : st) : outcome st :=
   | OFees amts => Ok (set_fee s (cadds (fee s) amts))
   | OAdvance dt => Ok (set_clock s (time s + dt) (height s))
   | OSetVotes vs => Ok (set_votes s vs (prev s))
-  | OAllocate possible infl => if possible then allocate c infl s else Ok s
+  | OAllocate possible infl => if possible then allocate v c infl s else Ok s
+  | ORotate who to payer => rotate who to payer s
+  | ORotateVal payer => rotate_validator payer s
+  | OExternal _ => Ok s
   | OBegin dt commit p possible infl => begin_block v c dt commit p possible infl s
   | OEnd => end_block v c s
   end.
